@@ -58,6 +58,6 @@ theorem dom_deferAll (tail : Code) (hd : ∀ s, domBody tail s = true) :
   intro ts
   induction ts with
   | nil => intro s; exact hd s
-  | cons t ts ih => intro s; simp [deferAll, domBody, Arg.isRes, ih]
+  | cons t ts ih => intro s; simp [deferAll, domBody, ih]
 
 end YaegiVerif.Unwind
